@@ -6,16 +6,16 @@ cd $wt || exit 2
 export CARGO_TARGET_DIR=$wt/target CARGO_NET_OFFLINE=true
 git checkout -q -- . ; 
 cmd=$(python3 -c "import json;print(json.load(open('$sd/meta.json'))['demo_command'])")
-echo "== demo without patch"; (eval "$cmd") > $sd/confirm_without.log 2>&1; r0=$?
+echo "== demo without patch"; (timeout 1200 bash -c "$cmd") > $sd/confirm_without.log 2>&1; r0=$?
 git apply $sd/patch.diff || { echo "PATCH DOES NOT APPLY"; exit 3; }
-echo "== demo with patch"; (eval "$cmd") > $sd/confirm_with.log 2>&1; r1=$?
+echo "== demo with patch"; (timeout 1200 bash -c "$cmd") > $sd/confirm_with.log 2>&1; r1=$?
 echo "== test suite with patch (demo files moved away)"
 # the demo may have edited tracked files (e.g. appended a `mod` line): go back to exactly patch.diff
 git checkout -q -- . ; git apply $sd/patch.diff
 # the demo must not be part of the suite run
 git status --short | grep '^??' | grep -v SEED | grep -v PROPERTY.json | grep -v ALREADY_TRIED | grep -v '^?? target' | awk '{print $2}' > $sd/demo_files.txt
 mkdir -p $sd/.stash; while read f; do mkdir -p $sd/.stash/$(dirname $f); mv $f $sd/.stash/$f; done < $sd/demo_files.txt
-cargo test --workspace --no-fail-fast --offline > $sd/confirm_suite.log 2>&1; r2=$?
+timeout 2400 cargo test --workspace --no-fail-fast --offline > $sd/confirm_suite.log 2>&1; r2=$?
 nfail=$(grep -E "^test result: FAILED|failed;" $sd/confirm_suite.log | grep -v " 0 failed" | wc -l)
 git checkout -q -- . ; rm -rf $sd/.stash
 echo "demo_without=$r0 demo_with=$r1 suite=$r2 failing_groups=$nfail"
